@@ -419,10 +419,8 @@ func runCheck(id, tier string) int {
 
 	var results []*shardResult
 	var phaseNames []string
-	for pi, ph := range cfg.Phases {
-		if ph.ThoroughOnly && tier != "thorough" {
-			continue
-		}
+	var phaseMu sync.Mutex
+	runPhase := func(pi int, ph phase) []*shardResult {
 		shards, nchecks := ph.QuickShards, ph.QuickChecks
 		if tier == "thorough" {
 			shards, nchecks = ph.ThoroughShards, ph.ThoroughChecks
@@ -430,7 +428,9 @@ func runCheck(id, tier string) int {
 		if shards <= 0 {
 			shards = 1
 		}
+		phaseMu.Lock()
 		phaseNames = append(phaseNames, ph.Name)
+		phaseMu.Unlock()
 		remaining := wallLimit - time.Since(start)
 		if remaining < 10*time.Second {
 			doCleanup()
@@ -474,6 +474,29 @@ func runCheck(id, tier string) int {
 			}(r, statsPath)
 		}
 		wg.Wait()
+		return res
+	}
+	// background phases (long waits, little CPU) run alongside the sequential ones
+	var bgWG sync.WaitGroup
+	var bgResults []*shardResult
+	for pi, ph := range cfg.Phases {
+		if !ph.Background || (ph.ThoroughOnly && tier != "thorough") {
+			continue
+		}
+		bgWG.Add(1)
+		go func(pi int, ph phase) {
+			defer bgWG.Done()
+			res := runPhase(pi, ph)
+			phaseMu.Lock()
+			bgResults = append(bgResults, res...)
+			phaseMu.Unlock()
+		}(pi, ph)
+	}
+	for pi, ph := range cfg.Phases {
+		if ph.Background || (ph.ThoroughOnly && tier != "thorough") {
+			continue
+		}
+		res := runPhase(pi, ph)
 		results = append(results, res...)
 		// stop at the first phase with a failure: later phases add nothing to the verdict
 		failed := false
@@ -486,6 +509,8 @@ func runCheck(id, tier string) int {
 			break
 		}
 	}
+	bgWG.Wait()
+	results = append(results, bgResults...)
 
 	// ------------------------------------------------------------ merge
 	known := loadKnown()
